@@ -85,6 +85,74 @@ class Zygote:
     def close(self):
         try:
             self.q.close()
+            os.kill(self.pid, signal.SIGKILL)  # (another forked helper may still hold the write end of the query pipe: do not wait for EOF)
+            os.waitpid(self.pid, 0)
+        except Exception:
+            pass
+
+
+class ReimportServer:
+    """Second pristine oracle, ~10x cheaper than a fork per query in this sandbox: ONE process forked from the worker before any einx
+    call; for every query it drops all einx modules from sys.modules, imports einx again (all module-level state of einx - caches,
+    registry, stacks, memo tables - is re-created) and performs the call with freshly built user callables. What it does not reset
+    is state kept outside einx's modules (sympy's caches, attributes hung on foreign objects); the fork-per-query Zygote stays in use
+    on a sample of the queries, and a disagreement between the two oracles is reported."""
+
+    def __init__(self, perform_fresh, timeout=120):
+        """perform_fresh(query) -> digest; it must obtain einx via `import einx` (the fresh module) and build adapters itself."""
+        self.timeout = timeout
+        qr, qw = os.pipe()
+        ar, aw = os.pipe()
+        pid = os.fork()
+        if pid == 0:
+            os.close(qw)
+            os.close(ar)
+            fin = os.fdopen(qr, "r")
+            fout = os.fdopen(aw, "w")
+            try:
+                for line in fin:
+                    q = json.loads(line)
+                    try:
+                        for k in [k for k in sys.modules if k == "einx" or k.startswith("einx.")]:
+                            del sys.modules[k]
+                        signal.alarm(timeout)
+                        d = perform_fresh(q)
+                        signal.alarm(0)
+                        payload = json.dumps({"ok": d})
+                    except BaseException as e:  # noqa
+                        signal.alarm(0)
+                        payload = json.dumps({"err": repr(e)[:300]})
+                    fout.write(payload + "\n")
+                    fout.flush()
+            finally:
+                os._exit(0)
+        os.close(qr)
+        os.close(aw)
+        self.pid = pid
+        self.q = os.fdopen(qw, "w")
+        self.a = os.fdopen(ar, "r")
+        self.memo = {}
+        self._pending = None
+
+    def submit(self, query):
+        key = json.dumps(query, sort_keys=True)
+        self._pending = key
+        if key not in self.memo:
+            self.q.write(key + "\n")
+            self.q.flush()
+
+    def result(self):
+        key = self._pending
+        if key not in self.memo:
+            ready, _, _ = select.select([self.a], [], [], self.timeout + 30)
+            line = self.a.readline() if ready else ""
+            self.memo[key] = json.loads(line) if line else {"err": "re-import server died or timed out"}
+        return self.memo[key]
+
+    def close(self):
+        try:
+            self.q.close()
+            os.kill(self.pid, signal.SIGKILL)
             os.waitpid(self.pid, 0)
         except Exception:
             pass
